@@ -128,8 +128,8 @@ impl Iface {
 }
 
 const METHOD_NAMES: [&str; 10] = ["Get", "GetURL", "Get2FA", "Type", "SetIPv6Addr", "X", "ListAllTheThings", "Match", "DoIt2", "HTTPGet"];
-const FIELD_NAMES: [&str; 12] = ["a", "userName", "user_name", "type", "URL", "x2", "match", "isOK", "fn", "ipV6", "async", "B"];
-const VARIANT_NAMES: [&str; 8] = ["one", "two_three", "Active", "IPv6", "camelCase", "type", "X", "ok2"];
+const FIELD_NAMES: [&str; 16] = ["a", "userName", "user_name", "type", "URL", "x2", "match", "isOK", "fn", "ipV6", "async", "B", "x86_64", "MAX_SIZE", "a_1b", "v1_2_3"];
+const VARIANT_NAMES: [&str; 13] = ["one", "two_three", "Active", "IPv6", "camelCase", "type", "X", "ok2", "x86_64", "MAX_SIZE", "a_b_c9", "v1_2_3", "utf_8"];
 const ERROR_NAMES: [&str; 6] = ["NotFound", "NotOK", "E2BIG", "Type", "X", "InvalidURLGiven"];
 const TYPE_NAMES: [&str; 5] = ["T", "MyURL", "Ab9", "Type", "IPv6Addr"];
 const IFACE_NAMES: [&str; 5] = ["org.c.Plain", "org.c.x-y", "io.c.HTTPApi", "a.b2", "org.c.lower"];
@@ -216,6 +216,19 @@ fn edge_interfaces() -> Vec<Iface> {
                 (s("Super"), vec![], vec![(s("crate"), Ty::Arr(b(Ty::Opt(b(Ty::Str)))))]),
             ],
             errors: vec![(s("Self"), vec![(s("self"), Ty::Int)]), (s("Crate"), vec![])],
+            ..Default::default()
+        },
+        // enums all of whose values are snake_case, with digits right after an underscore; the same
+        // spellings as field and parameter names
+        Iface {
+            name: s("org.edge.snake"),
+            structs: vec![(s("Cpu"), vec![(s("x86_64"), Ty::Bool), (s("level_2"), Ty::Int), (s("utf_8"), Ty::Opt(b(Ty::Str))), (s("arch"), Ty::CustomEnum(0))])],
+            enums: vec![(s("Arch"), vec![s("x86_64"), s("aarch64"), s("riscv_64")]), (s("Lvl"), vec![s("level_2"), s("tls1_3"), s("utf_8"), s("plain")]), (s("Caps"), vec![s("MAX_SIZE"), s("MIN_SIZE_2")])],
+            methods: vec![
+                (s("Find"), vec![(s("arch"), Ty::CustomEnum(0)), (s("lvl_1"), Ty::Opt(b(Ty::CustomEnum(1))))], vec![(s("cpu"), Ty::CustomStruct(0)), (s("caps_2"), Ty::CustomEnum(2))]),
+                (s("Find2"), vec![(s("a_1"), Ty::CustomEnum(1)), (s("b_2c"), Ty::CustomEnum(2))], vec![(s("r_1"), Ty::CustomEnum(0))]),
+            ],
+            errors: vec![(s("No64Bit"), vec![(s("x86_64"), Ty::Bool)])],
             ..Default::default()
         },
         Iface {
